@@ -74,7 +74,12 @@ let gen_history (idx : int) (prof : eprofile) (oc : out_channel) =
       if has_dup (deadlines y') then false else begin y := y'; output_string oc ("E " ^ text ^ "\n"); true end end in
   let emit_or_skip text = if not (emit text) then (ignore (emit "ADV 1"); ignore (emit text)) in
   let adv d = let rec go d k = if k > 8 then () else if not (emit (Printf.sprintf "ADV %d" d)) then go (d + 1 + rnd 3) (k + 1) in go (max 1 d) 0 in
-  let call a = let id = !next_call in incr next_call; emit_or_skip (Printf.sprintf "CALL %d %s" id a) in
+  (* one history in four runs its API calls over the synchronous link (CALLS): every write of the client returns only
+     after all it causes has settled - the schedule in which the peer is faster than the caller.  The composed model
+     runs every event to quiescence, so its outputs do not depend on that schedule; race-free code does not either *)
+  let sync_calls = rnd 4 = 0 in
+  let call a = let id = !next_call in incr next_call;
+    emit_or_skip (Printf.sprintf "%s %d %s" (if sync_calls then "CALLS" else "CALL") id a) in
   let hx s = hex_of_bytes (bs s) in
   (* time for an exchange to finish, retransmissions included *)
   let settle () = if prof.e_lossy = 0 then adv (1 + rnd 20) else adv ((rcount + 1) * (max gdelay cdelay) * pick [1; 1; 2] + 7 + rnd 40) in
